@@ -157,3 +157,158 @@ func VH_C09_KRBErrorSurfaces() {
 	zzverif.Assert("one-tgs-request", zzverif.CallCount(vhKDC) == 2)
 	zzverif.Reach("done")
 }
+
+// ---- C11: the client's shared state is used by goroutines without data races or deadlocks -----------------
+
+func vhCacheOp(c *Cache, op int, tkt messages.Ticket, key types.EncryptionKey) {
+	switch op {
+	case 0:
+		c.getEntry("s")
+	case 1:
+		now := time.Unix(1700000000, 0)
+		c.addEntry(tkt, now, now, now.Add(time.Hour), now.Add(2*time.Hour), key)
+	case 2:
+		c.RemoveEntry("s")
+	case 3:
+		c.clear()
+	case 4:
+		c.JSON()
+	}
+}
+
+// VH_C11_CachePair: every pair of operations on one service-ticket cache, every interleaving.
+func VH_C11_CachePair() {
+	a, b := zzverif.Param("a"), zzverif.Param("b")
+	c := NewCache()
+	t1, k1 := vhTicket("R", "s"), vhKey()
+	t2, k2 := vhTicket("R", "s"), vhKey()
+	vhCacheOp(c, 1, t1, k1)
+	zzverif.Par(func() { vhCacheOp(c, a, t2, k2) }, func() { vhCacheOp(c, b, t1, k1) })
+	// whatever is in the cache is a (ticket, key) pair that was added together
+	if e, ok := c.getEntry("s"); ok {
+		p1 := zzverif.And(zzverif.EqBytes(e.Ticket.EncPart.Cipher, t1.EncPart.Cipher), zzverif.EqBytes(e.SessionKey.KeyValue, k1.KeyValue))
+		p2 := zzverif.And(zzverif.EqBytes(e.Ticket.EncPart.Cipher, t2.EncPart.Cipher), zzverif.EqBytes(e.SessionKey.KeyValue, k2.KeyValue))
+		zzverif.Assert("cached-ticket-and-key-were-issued-together", zzverif.Or(p1, p2))
+	}
+	zzverif.Reach("done")
+}
+
+func vhSessionOp(ss *sessions, s *session, op int, tkt messages.Ticket, dep messages.EncKDCRepPart, out *[2][]byte) {
+	switch op {
+	case 0:
+		ss.get("R")
+	case 1:
+		ss.update(s)
+	case 2:
+		s.update(tkt, dep)
+	case 3:
+		_, t, k := s.tgtDetails()
+		out[0], out[1] = t.EncPart.Cipher, k.KeyValue
+	case 4:
+		s.timeDetails()
+	case 5:
+		s.valid()
+	case 6:
+		ss.JSON()
+	}
+}
+
+// VH_C11_SessionPair: every pair of operations on one TGT session, every interleaving; a (TGT, session
+// key) pair read by tgtDetails is one that a single update wrote.
+func VH_C11_SessionPair() {
+	a, b := zzverif.Param("a"), zzverif.Param("b")
+	ss := &sessions{Entries: make(map[string]*session)}
+	t1, k1 := vhTicket("R", "krbtgt", "R"), vhKey()
+	t2, k2 := vhTicket("R", "krbtgt", "R"), vhKey()
+	now := time.Unix(1700000000, 0)
+	d1 := messages.EncKDCRepPart{Key: k1, AuthTime: now, EndTime: now.Add(time.Hour), RenewTill: now.Add(2 * time.Hour)}
+	d2 := messages.EncKDCRepPart{Key: k2, AuthTime: now, EndTime: now.Add(time.Hour), RenewTill: now.Add(2 * time.Hour)}
+	s := &session{realm: "R"}
+	s.update(t1, d1)
+	ss.update(s)
+	var oa, ob [2][]byte
+	zzverif.Par(func() { vhSessionOp(ss, s, a, t2, d2, &oa) }, func() { vhSessionOp(ss, s, b, t2, d2, &ob) })
+	for _, o := range [][2][]byte{oa, ob} {
+		if o[0] != nil {
+			p1 := zzverif.And(zzverif.EqBytes(o[0], t1.EncPart.Cipher), zzverif.EqBytes(o[1], k1.KeyValue))
+			p2 := zzverif.And(zzverif.EqBytes(o[0], t2.EncPart.Cipher), zzverif.EqBytes(o[1], k2.KeyValue))
+			zzverif.Assert("tgt-and-session-key-read-together-were-issued-together", zzverif.Or(p1, p2))
+		}
+	}
+	zzverif.Reach("done")
+}
+
+// ---- C12: the exchange succeeds whenever some configured KDC and permitted transport works ----------------
+
+// VH_C12_SendToKDC: n KDCs; each (KDC, transport) endpoint answers, refuses, stays silent/closes early
+// or (TCP) closes mid-reply; the size preference decides which transport is tried first.
+func VH_C12_SendToKDC() {
+	n, pref := zzverif.Param("kdcs"), zzverif.Param("pref")
+	c := vhConfig()
+	var kdcs []string
+	for i := 1; i <= n; i++ {
+		kdcs = append(kdcs, zzverif.Endpoint(i))
+	}
+	c.Realms = []config.Realm{{Realm: "R", KDC: kdcs}}
+	req := []byte{1, 2, 3, 4, 5, 6, 7, 8, 9, 10}
+	switch pref {
+	case 0:
+		c.LibDefaults.UDPPreferenceLimit = 1 // always TCP
+	case 1:
+		c.LibDefaults.UDPPreferenceLimit = 5 // smaller than the request: TCP first, then UDP
+	case 2:
+		c.LibDefaults.UDPPreferenceLimit = 1465 // larger than the request: UDP first, then TCP
+	}
+	cl := NewWithPassword("u", "R", "p", c, DisablePAFXFAST(true))
+	rb, err := cl.sendToKDC(req, "R")
+	// ---- what the endpoints are like (ghost knowledge) and what the code did ---------------------------
+	nk := zzverif.CallCount("KRBError).Unmarshal")
+	dials := zzverif.GhostCount("dials")
+	zzverif.Assert("bounded-connection-attempts", dials <= 2*n)
+	tcpAllowed, udpAllowed := true, pref != 0
+	anyAnswers := false
+	for i := 1; i <= n; i++ {
+		anyAnswers = zzverif.Any(anyAnswers, zzverif.And(tcpAllowed, zzverif.EndpointAnswers(i, true)), zzverif.And(udpAllowed, zzverif.EndpointAnswers(i, false)))
+	}
+	// did any of the replies that were looked at decode as a KRB-ERROR?
+	sawKRBError := false
+	var lastErr messages.KRBError
+	for c := 0; c < nk; c++ {
+		if zzverif.CallOK("KRBError).Unmarshal", c) {
+			sawKRBError = true
+			lastErr = *zzverif.CallArg("KRBError).Unmarshal", c, 0).(*messages.KRBError)
+		}
+	}
+	if err == nil {
+		zzverif.Reach("answered")
+		// the bytes returned are the complete reply of an endpoint that answers
+		genuine := false
+		for i := 1; i <= n; i++ {
+			genuine = zzverif.Or(genuine, zzverif.And(zzverif.EqBytes(rb, []byte{0x6b, byte(i)}), zzverif.Or(zzverif.EndpointAnswers(i, true), zzverif.EndpointAnswers(i, false))))
+		}
+		zzverif.Assert("returned-bytes-are-the-complete-answer-of-a-working-kdc", genuine)
+	} else {
+		zzverif.Reach("failed")
+		// a KDC that answers over a permitted transport means success, unless a KRB-ERROR was received
+		zzverif.Assert("working-kdc-and-transport-means-success", zzverif.Or(!anyAnswers, sawKRBError))
+		if sawKRBError {
+			zzverif.Reach("krb-error")
+			if ke, ok := err.(messages.KRBError); ok {
+				zzverif.Assert("surfaced-error-is-the-kdcs-krb-error", ke.ErrorCode == lastErr.ErrorCode)
+			} else {
+				// a KRB-ERROR may be passed over only to retry: RESPONSE_TOO_BIG over UDP (then the TCP outcome counts)
+				zzverif.Assert("krb-error-not-surfaced-only-for-response-too-big", lastErr.ErrorCode == 52)
+			}
+		}
+	}
+}
+
+// VH_C04_SendTCP: a peer on the KDC's TCP port announces any reply length.
+func VH_C04_SendTCP() {
+	c := vhConfig()
+	c.Realms = []config.Realm{{Realm: "R", KDC: []string{zzverif.Endpoint(1)}}}
+	c.LibDefaults.UDPPreferenceLimit = 1
+	cl := NewWithPassword("u", "R", "p", c, DisablePAFXFAST(true))
+	cl.sendToKDC([]byte{1, 2, 3}, "R")
+	zzverif.Reach("returned")
+}
